@@ -231,3 +231,47 @@ fn c03_size_operands_at_the_boundaries_return() {
     }
     println!("CASES c03_size_operands {cases}");
 }
+
+/// the configuration builder: every setter sets exactly the field it names and leaves the others alone, in every order
+/// (a limit that silently lands in another field changes what "the limits allow" for another property)
+#[test]
+fn c03_config_setters_set_exactly_their_own_field() {
+    let fields = |c: &Config| -> [(&'static str, usize); 6] { [("gas_limit", c.gas_limit), ("maximum_iterations_per_opcode", c.maximum_iterations_per_opcode), ("maximum_forks_per_fork_target", c.maximum_forks_per_fork_target),
+        ("value_size_limit", c.value_size_limit), ("single_memory_operation_size_limit", c.single_memory_operation_size_limit), ("permissive_errors", c.permissive_errors as usize)] };
+    let setters: [(&'static str, fn(Config, usize) -> Config, &'static [&'static str]); 6] = [
+        ("gas_limit", |c, v| c.with_gas_limit(v), &["C03", "C17"]),
+        ("maximum_iterations_per_opcode", |c, v| c.with_max_iterations_per_opcode(v), &["C03", "C08"]),
+        ("maximum_forks_per_fork_target", |c, v| c.with_max_forks_per_fork_target(v), &["C03", "C08"]),
+        ("value_size_limit", |c, v| c.with_value_size_limit(v), &["C18"]),
+        ("single_memory_operation_size_limit", |c, v| c.with_memory_max_bytes(v), &["C03", "C18", "C13"]),
+        ("permissive_errors", |c, v| c.with_permissive_errors(v != 0), &["C17"]),
+    ];
+    let mut cases = 0;
+    for first in 0..setters.len() {
+        for second in 0..setters.len() {
+            for (v1, v2) in [(1usize, 0usize), (3, 1), (7, 4096), (usize::MAX, 1)] {
+                let mut model: Vec<(&str, usize)> = fields(&Config::default()).to_vec();
+                let mut cfg = Config::default();
+                for (k, v) in [(first, v1), (second, v2)] {
+                    let v = if setters[k].0 == "permissive_errors" { v % 2 } else { v };
+                    cfg = (setters[k].1)(cfg, v);
+                    for m in model.iter_mut() { if m.0 == setters[k].0 { m.1 = v; } }
+                }
+                cases += 1;
+                let got = fields(&cfg);
+                for (g, m) in got.iter().zip(model.iter()) {
+                    if g.1 != m.1 {
+                        // report under every property the wrongly set field and the setters used belong to
+                        let mut props: Vec<&str> = vec![];
+                        for k in [first, second] { for p in setters[k].2 { if !props.contains(p) { props.push(p); } } }
+                        for s in &setters { if s.0 == g.0 { for p in s.2 { if !props.contains(p) { props.push(p); } } } }
+                        for p in props {
+                            witness(p, "config.setter_sets_exactly_its_field", format!("Config::default().{}({v1}).{}({v2})", setters[first].0, setters[second].0), format!("{} = {}", g.0, g.1), format!("{} = {}", m.0, m.1));
+                        }
+                    }
+                }
+            }
+        }
+    }
+    println!("CASES c03_config {cases}");
+}
